@@ -89,6 +89,8 @@ type Frame struct {
 	callOrd  map[string]map[ssa.Instruction]int
 	ifOrd    map[*ssa.If]int
 	pendingRet *Val // result tuple while an `at return` assertion is evaluated
+	loopPre  *State // state before the innermost loop being entered / closed (for sinceLoop())
+	hookVars map[string]Val // extra bindings ($key, $value) while an anchored assertion is evaluated
 }
 
 func (fr *Frame) dryMode() bool { return fr.dry > 0 || fr.run.eng.dryAll }
@@ -190,7 +192,11 @@ func (fr *Frame) analyze() {
 	var sites []site
 	for _, b := range fn.Blocks {
 		for i, ins := range b.Instrs {
-			sites = append(sites, site{ins, ins.Pos(), b.Index, i})
+			p := ins.Pos()
+			if x, ok := ins.(*ssa.If); ok && !p.IsValid() {
+				p = condPos(x.Cond)
+			}
+			sites = append(sites, site{ins, p, b.Index, i})
 		}
 	}
 	sort.SliceStable(sites, func(i, j int) bool {
@@ -283,6 +289,26 @@ func (fr *Frame) analyze() {
 			}
 		}
 	}
+}
+
+// condPos finds a source position for a branch condition (If instructions carry none).
+func condPos(v ssa.Value) token.Pos {
+	for depth := 0; depth < 4 && v != nil; depth++ {
+		if p := v.Pos(); p.IsValid() {
+			return p
+		}
+		switch x := v.(type) {
+		case *ssa.Extract:
+			v = x.Tuple
+		case *ssa.UnOp:
+			v = x.X
+		case *ssa.BinOp:
+			v = x.X
+		default:
+			return token.NoPos
+		}
+	}
+	return token.NoPos
 }
 
 func loopPos(li *loopInfo) token.Pos {
@@ -729,6 +755,9 @@ func (fr *Frame) storeTo(ins ssa.Instruction, addr Val, v Val, st *State) {
 			fr.atHook("store", addr.A.Cell.Comment, ins, st)
 		}
 		st.store(addr.A, coerce(v, addr.A.T))
+		if addr.A.Kind == ACell {
+			fr.atHook("stored", addr.A.Cell.Comment, ins, st)
+		}
 	case KScalar:
 		// pointer to a heap struct: whole-struct store
 		et, _ := derefStruct(addr.T)
@@ -932,6 +961,7 @@ func (fr *Frame) execIndex(x *ssa.Index, st *State) Val {
 	switch bt := x.X.Type().Underlying().(type) {
 	case *types.Basic: // string
 		fr.panicCheck("panic.index", x, st, And(Ge(idx, IntLit(0)), Lt(idx, Slen(base.S))), "string index out of range")
+		st.assume(inRange(Sat(base.S, idx), x.Type())) // a byte of a string (by type)
 		return scalar(Sat(base.S, idx), x.Type())
 	case *types.Array:
 		fr.panicCheck("panic.index", x, st, And(Ge(idx, IntLit(0)), Lt(idx, IntLit(bt.Len()))), "array index out of range")
@@ -1231,10 +1261,30 @@ func (fr *Frame) execMakeMap(x *ssa.MakeMap, st *State) Val {
 	return scalar(m, x.Type())
 }
 
+// valueSourceName names the local or field an SSA value was loaded from ("" when unknown).
+func valueSourceName(v ssa.Value) string {
+	if u, ok := v.(*ssa.UnOp); ok && u.Op == token.MUL {
+		switch a := u.X.(type) {
+		case *ssa.Alloc:
+			return a.Comment
+		case *ssa.FieldAddr:
+			return a.X.Type().Underlying().(*types.Pointer).Elem().Underlying().(*types.Struct).Field(a.Field).Name()
+		case *ssa.Global:
+			return a.Name()
+		}
+	}
+	return ""
+}
+
 func (fr *Frame) execMapUpdate(x *ssa.MapUpdate, st *State) {
 	m := fr.val(x.Map, st)
 	k := fr.val(x.Key, st)
 	v := fr.val(x.Value, st)
+	if name := valueSourceName(x.Map); name != "" && fr.contract != nil {
+		fr.hookVars = map[string]Val{"$key": k, "$value": v}
+		fr.atHook("mapupdate", name, x, st)
+		fr.hookVars = nil
+	}
 	fr.panicCheck("panic.mapnil", x, st, Neq(m.S, IntLit(0)), "assignment to entry in nil map")
 	mapSet(st, mapInfoOf(x.Map.Type()), m.S, k.S, v)
 }
@@ -1245,6 +1295,7 @@ func (fr *Frame) execLookup(x *ssa.Lookup, st *State) Val {
 	if _, isMap := x.X.Type().Underlying().(*types.Map); !isMap {
 		// string index
 		fr.panicCheck("panic.index", x, st, And(Ge(k.S, IntLit(0)), Lt(k.S, Slen(base.S))), "string index out of range")
+		st.assume(inRange(Sat(base.S, k.S), x.Type())) // a byte of a string (by type)
 		return scalar(Sat(base.S, k.S), x.Type())
 	}
 	mi := mapInfoOf(x.X.Type())
